@@ -139,6 +139,9 @@ theories/V2/PlantedText.vos theories/V2/PlantedText.vok theories/V2/PlantedText.
 theories/V2/FilterProof.vo theories/V2/FilterProof.glob theories/V2/FilterProof.v.beautified theories/V2/FilterProof.required_vo: theories/V2/FilterProof.v theories/Base/Float64.vo theories/Base/Sort.vo theories/V2/SSet.vo theories/V2/Match.vo theories/V2/MatchWF.vo theories/V2/Planted.vo
 theories/V2/FilterProof.vio: theories/V2/FilterProof.v theories/Base/Float64.vio theories/Base/Sort.vio theories/V2/SSet.vio theories/V2/Match.vio theories/V2/MatchWF.vio theories/V2/Planted.vio
 theories/V2/FilterProof.vos theories/V2/FilterProof.vok theories/V2/FilterProof.required_vos: theories/V2/FilterProof.v theories/Base/Float64.vos theories/Base/Sort.vos theories/V2/SSet.vos theories/V2/Match.vos theories/V2/MatchWF.vos theories/V2/Planted.vos
+theories/V2/FilterKeep.vo theories/V2/FilterKeep.glob theories/V2/FilterKeep.v.beautified theories/V2/FilterKeep.required_vo: theories/V2/FilterKeep.v theories/Base/Float64.vo theories/Base/Sort.vo theories/V2/SSet.vo theories/V2/Match.vo theories/V2/MatchWF.vo theories/V2/Planted.vo theories/V2/FilterProof.vo
+theories/V2/FilterKeep.vio: theories/V2/FilterKeep.v theories/Base/Float64.vio theories/Base/Sort.vio theories/V2/SSet.vio theories/V2/Match.vio theories/V2/MatchWF.vio theories/V2/Planted.vio theories/V2/FilterProof.vio
+theories/V2/FilterKeep.vos theories/V2/FilterKeep.vok theories/V2/FilterKeep.required_vos: theories/V2/FilterKeep.v theories/Base/Float64.vos theories/Base/Sort.vos theories/V2/SSet.vos theories/V2/Match.vos theories/V2/MatchWF.vos theories/V2/Planted.vos theories/V2/FilterProof.vos
 theories/V2/NormProof.vo theories/V2/NormProof.glob theories/V2/NormProof.v.beautified theories/V2/NormProof.required_vo: theories/V2/NormProof.v theories/Base/Utf8.vo theories/V2/Tok.vo theories/V2/TokSim.vo theories/V2/TokInv.vo theories/V2/Normalize.vo theories/V2/TokWF.vo
 theories/V2/NormProof.vio: theories/V2/NormProof.v theories/Base/Utf8.vio theories/V2/Tok.vio theories/V2/TokSim.vio theories/V2/TokInv.vio theories/V2/Normalize.vio theories/V2/TokWF.vio
 theories/V2/NormProof.vos theories/V2/NormProof.vok theories/V2/NormProof.required_vos: theories/V2/NormProof.v theories/Base/Utf8.vos theories/V2/Tok.vos theories/V2/TokSim.vos theories/V2/TokInv.vos theories/V2/Normalize.vos theories/V2/TokWF.vos
@@ -166,9 +169,9 @@ theories/Props/C06.vos theories/Props/C06.vok theories/Props/C06.required_vos: t
 theories/Props/C10.vo theories/Props/C10.glob theories/Props/C10.v.beautified theories/Props/C10.required_vo: theories/Props/C10.v theories/Base/Utf8.vo theories/Base/Float64.vo theories/Base/Sort.vo theories/Base/SortProof.vo theories/Base/Float64Proof.vo theories/V2/Tok.vo theories/V2/SSet.vo theories/V2/Match.vo theories/V2/ScoringProof.vo theories/V2/MatchND.vo theories/V2/MatchWF.vo theories/V2/TokInv.vo theories/V2/Reader.vo theories/V2/ReaderProof.vo theories/V2/Glue.vo
 theories/Props/C10.vio: theories/Props/C10.v theories/Base/Utf8.vio theories/Base/Float64.vio theories/Base/Sort.vio theories/Base/SortProof.vio theories/Base/Float64Proof.vio theories/V2/Tok.vio theories/V2/SSet.vio theories/V2/Match.vio theories/V2/ScoringProof.vio theories/V2/MatchND.vio theories/V2/MatchWF.vio theories/V2/TokInv.vio theories/V2/Reader.vio theories/V2/ReaderProof.vio theories/V2/Glue.vio
 theories/Props/C10.vos theories/Props/C10.vok theories/Props/C10.required_vos: theories/Props/C10.v theories/Base/Utf8.vos theories/Base/Float64.vos theories/Base/Sort.vos theories/Base/SortProof.vos theories/Base/Float64Proof.vos theories/V2/Tok.vos theories/V2/SSet.vos theories/V2/Match.vos theories/V2/ScoringProof.vos theories/V2/MatchND.vos theories/V2/MatchWF.vos theories/V2/TokInv.vos theories/V2/Reader.vos theories/V2/ReaderProof.vos theories/V2/Glue.vos
-theories/Props/C01.vo theories/Props/C01.glob theories/Props/C01.v.beautified theories/Props/C01.required_vo: theories/Props/C01.v theories/Base/Utf8.vo theories/Base/Float64.vo theories/Base/Sort.vo theories/Base/SortProof.vo theories/Base/Float64Proof.vo theories/V2/Tok.vo theories/V2/SSet.vo theories/V2/Match.vo theories/V2/ScoringProof.vo theories/V2/MatchND.vo theories/V2/MatchWF.vo theories/V2/Planted.vo theories/V2/TokSim.vo theories/V2/TokInv.vo theories/V2/PlantedText.vo theories/V2/FilterProof.vo
-theories/Props/C01.vio: theories/Props/C01.v theories/Base/Utf8.vio theories/Base/Float64.vio theories/Base/Sort.vio theories/Base/SortProof.vio theories/Base/Float64Proof.vio theories/V2/Tok.vio theories/V2/SSet.vio theories/V2/Match.vio theories/V2/ScoringProof.vio theories/V2/MatchND.vio theories/V2/MatchWF.vio theories/V2/Planted.vio theories/V2/TokSim.vio theories/V2/TokInv.vio theories/V2/PlantedText.vio theories/V2/FilterProof.vio
-theories/Props/C01.vos theories/Props/C01.vok theories/Props/C01.required_vos: theories/Props/C01.v theories/Base/Utf8.vos theories/Base/Float64.vos theories/Base/Sort.vos theories/Base/SortProof.vos theories/Base/Float64Proof.vos theories/V2/Tok.vos theories/V2/SSet.vos theories/V2/Match.vos theories/V2/ScoringProof.vos theories/V2/MatchND.vos theories/V2/MatchWF.vos theories/V2/Planted.vos theories/V2/TokSim.vos theories/V2/TokInv.vos theories/V2/PlantedText.vos theories/V2/FilterProof.vos
+theories/Props/C01.vo theories/Props/C01.glob theories/Props/C01.v.beautified theories/Props/C01.required_vo: theories/Props/C01.v theories/Base/Utf8.vo theories/Base/Float64.vo theories/Base/Sort.vo theories/Base/SortProof.vo theories/Base/Float64Proof.vo theories/V2/Tok.vo theories/V2/SSet.vo theories/V2/Match.vo theories/V2/ScoringProof.vo theories/V2/MatchND.vo theories/V2/MatchWF.vo theories/V2/Planted.vo theories/V2/TokSim.vo theories/V2/TokInv.vo theories/V2/PlantedText.vo theories/V2/FilterProof.vo theories/V2/FilterKeep.vo
+theories/Props/C01.vio: theories/Props/C01.v theories/Base/Utf8.vio theories/Base/Float64.vio theories/Base/Sort.vio theories/Base/SortProof.vio theories/Base/Float64Proof.vio theories/V2/Tok.vio theories/V2/SSet.vio theories/V2/Match.vio theories/V2/ScoringProof.vio theories/V2/MatchND.vio theories/V2/MatchWF.vio theories/V2/Planted.vio theories/V2/TokSim.vio theories/V2/TokInv.vio theories/V2/PlantedText.vio theories/V2/FilterProof.vio theories/V2/FilterKeep.vio
+theories/Props/C01.vos theories/Props/C01.vok theories/Props/C01.required_vos: theories/Props/C01.v theories/Base/Utf8.vos theories/Base/Float64.vos theories/Base/Sort.vos theories/Base/SortProof.vos theories/Base/Float64Proof.vos theories/V2/Tok.vos theories/V2/SSet.vos theories/V2/Match.vos theories/V2/ScoringProof.vos theories/V2/MatchND.vos theories/V2/MatchWF.vos theories/V2/Planted.vos theories/V2/TokSim.vos theories/V2/TokInv.vos theories/V2/PlantedText.vos theories/V2/FilterProof.vos theories/V2/FilterKeep.vos
 theories/Props/C07.vo theories/Props/C07.glob theories/Props/C07.v.beautified theories/Props/C07.required_vo: theories/Props/C07.v theories/Base/Float64.vo theories/V2/SSet.vo theories/V2/Match.vo theories/V2/Planted.vo theories/V2/MatchWF.vo theories/V2/Shift.vo theories/V2/FuseShift.vo theories/V2/WindowSpec.vo theories/V2/WindowShift.vo
 theories/Props/C07.vio: theories/Props/C07.v theories/Base/Float64.vio theories/V2/SSet.vio theories/V2/Match.vio theories/V2/Planted.vio theories/V2/MatchWF.vio theories/V2/Shift.vio theories/V2/FuseShift.vio theories/V2/WindowSpec.vio theories/V2/WindowShift.vio
 theories/Props/C07.vos theories/Props/C07.vok theories/Props/C07.required_vos: theories/Props/C07.v theories/Base/Float64.vos theories/V2/SSet.vos theories/V2/Match.vos theories/V2/Planted.vos theories/V2/MatchWF.vos theories/V2/Shift.vos theories/V2/FuseShift.vos theories/V2/WindowSpec.vos theories/V2/WindowShift.vos
